@@ -31,11 +31,77 @@ class AnchorMissing(Exception):
 # helpers
 # ------------------------------------------------------------------------------------------------
 
+def _const_expr(n):
+    """literal constant expression: numbers/strings/None/bools, + - * / ** % // of those, tuples/lists/dicts/sets of those"""
+    if isinstance(n, ast.Constant):
+        return True
+    if isinstance(n, ast.UnaryOp) and isinstance(n.op, (ast.USub, ast.UAdd)):
+        return _const_expr(n.operand)
+    if isinstance(n, ast.BinOp) and isinstance(n.op, (ast.Add, ast.Sub, ast.Mult, ast.Div, ast.Pow, ast.Mod, ast.FloorDiv)):
+        return _const_expr(n.left) and _const_expr(n.right)
+    if isinstance(n, (ast.Tuple, ast.List, ast.Set)):
+        return all(_const_expr(e) for e in n.elts)
+    if isinstance(n, ast.Dict):
+        return all(k is not None and _const_expr(k) for k in n.keys) and all(_const_expr(v) for v in n.values)
+    return False
+
+
+def _bound_names(node):
+    """every name that `node` (a function, class or module body part) may bind, at any depth"""
+    out = set()
+    for n in ast.walk(node):
+        if isinstance(n, ast.Name) and isinstance(n.ctx, (ast.Store, ast.Del)):
+            out.add(n.id)
+        elif isinstance(n, ast.arg):
+            out.add(n.arg)
+        elif isinstance(n, (ast.FunctionDef, ast.AsyncFunctionDef, ast.ClassDef)):
+            out.add(n.name)
+        elif isinstance(n, (ast.Global, ast.Nonlocal)):
+            out.update(n.names)
+        elif isinstance(n, (ast.Import, ast.ImportFrom)):
+            for a in n.names:
+                out.add((a.asname or a.name).split(".")[0])
+        elif isinstance(n, ast.ExceptHandler) and n.name:
+            out.add(n.name)
+    return out
+
+
+def inline_private_constants(tree):
+    """Semantics-preserving normalisation applied before any anchor is matched: a module-level `_NAME = <literal
+    constant expression>` that is bound exactly once in the whole module (no other store, parameter, global
+    declaration, import or def of that name at any depth) is substituted for every load of `_NAME`.  A refactoring
+    that only gives a literal a private name therefore translates to the same Lean text as the literal itself.
+    Public names are left alone (the star-import of the package could let another module rebind them)."""
+    binders = {}        # name -> number of top-level statements that bind it somewhere (at any depth)
+    consts = {}
+    for stmt in tree.body:
+        for nm in _bound_names(stmt):
+            binders[nm] = binders.get(nm, 0) + 1
+        if isinstance(stmt, ast.Assign) and len(stmt.targets) == 1 and isinstance(stmt.targets[0], ast.Name):
+            nm = stmt.targets[0].id
+            if nm.startswith("_") and not nm.startswith("__") and _const_expr(stmt.value):
+                consts[nm] = stmt.value
+    # exactly one binder in the whole module: the constant assignment itself (so no local shadows it, nothing rebinds it)
+    ok = {nm: v for nm, v in consts.items() if binders.get(nm) == 1}
+    if not ok:
+        return tree, []
+
+    class Sub(ast.NodeTransformer):
+        def visit_Name(self, n):
+            if isinstance(n.ctx, ast.Load) and n.id in ok:
+                import copy
+                return ast.copy_location(copy.deepcopy(ok[n.id]), n)
+            return n
+    tree = ast.fix_missing_locations(Sub().visit(tree))
+    return tree, sorted(ok)
+
+
 def parse(repo, rel):
     path = os.path.join(repo, rel)
     with open(path, "r", encoding="utf-8") as f:
         src = f.read()
-    return ast.parse(src, filename=path), src
+    tree, _inlined = inline_private_constants(ast.parse(src, filename=path))
+    return tree, src
 
 
 def find_def(tree, name, cls=None):
